@@ -1,17 +1,23 @@
 #!/usr/bin/env python3
 """Packages confirmed mutants from /tmp/mut/<ID>-out/<x>/ into /verif/seeded/<ID>-<x>/ using /tmp/mut/results.txt."""
 import json, os, re, shutil, sys
-res = open('/tmp/mut/results.txt').read().split('== ')[1:]
+ROOT = sys.argv[1] if len(sys.argv) > 1 else '/tmp/mut'
+SUFFIX = dict(a='a', b='b') if ROOT == '/tmp/mut' else dict(a='c', b='d')
+res = open(ROOT + '/results.txt').read().split('== ')[1:]
+SEEN = set()
 for block in res:
     lines = block.strip().splitlines()
     d = lines[0].strip()
-    m = re.match(r'/tmp/mut/(C\d+)-out/(\w+)', d)
+    m = re.match(r'/tmp/mut\d*/(C\d+)-out/(\w+)', d)
     if not m: continue
     pid, x = m.groups()
+    x = SUFFIX.get(x, x)
     confirm = [l for l in lines if l.startswith('CONFIRM')]
     if not confirm or 'CONFIRMED' not in confirm[-1]:
         print('skip (not confirmed)', d); continue
-    checks = {}
+    prev = '/verif/seeded/%s-%s/meta.json' % (pid, x)
+    checks = json.load(open(prev))['results'] if os.path.exists(prev) and d in SEEN else {}
+    SEEN.add(d)
     cur = None
     for l in lines[1:]:
         mm = re.match(r'(C\d+) rc=(\d+) (.*)', l)
@@ -36,5 +42,10 @@ for block in res:
         "detected_by": sorted(k for k, v in checks.items() if v["exit"] == 1),
         "missed_by": sorted(k for k, v in checks.items() if v["exit"] == 0),
     }
+    hist = {}
+    if os.path.exists(ROOT + '/history.json'):
+        hist = json.load(open(ROOT + '/history.json'))
+    if meta['id'] in hist:
+        meta['history'] = hist[meta['id']]
     json.dump(meta, open(os.path.join(out, 'meta.json'), 'w'), indent=1)
     print(out, 'detected by', meta["detected_by"], 'missed by', meta["missed_by"])
